@@ -420,7 +420,7 @@ def use_repository(backend, key, password, cfg, scratch, rng, tag):
     async def go():
         await repo.unlock(password=password, key=key)
         snap = await repo.snapshot(paths=[src])
-        await repo.restore(path=out, snapshot_regex=snap.name)
+        await repo.restore(path=out, snapshot_regex=f'^{snap.name}$')     # anchored: a 1-byte digest is 2 hex characters
         await repo.close()
     try:
         run_async(go)
@@ -464,7 +464,7 @@ def use_keys_together(backend, keys, pws, cfg, scratch, rng, tag):
     for i, (key, pw) in enumerate(zip(keys, pws)):
         if names[i] is None:
             continue
-        for how, regex in (('unfiltered restore', None), ('restore of its own snapshot', names[i])):
+        for how, regex in (('unfiltered restore', None), ('restore of its own snapshot', f'^{names[i]}$')):
             out = scratch / f'out{tag}_k{i}_{0 if regex is None else 1}'
             repo = Repository(backend, concurrent=2, cache_directory=None)
 
@@ -783,7 +783,7 @@ def shared_cache_probe(rep: Report, ctx):
                 async def go():
                     await repo.unlock(password=pw, key=key)
                     nm = name or (await repo.snapshot(paths=[src])).name
-                    await repo.restore(path=out, snapshot_regex=nm)
+                    await repo.restore(path=out, snapshot_regex=f'^{nm}$')
                     await repo.close()
                     return nm
                 try:
@@ -1035,6 +1035,10 @@ def cli_chain_probe(rep: Report, ctx):
                 return ops, log, pws, None, f'`replicat {" ".join(argv)}` exits with status {rc}: {err}'
             keys.append(out)
             pws.append(pws[op[1]] if op[0] == 'clone' else new_pw)
+        return ops, log, pws, (d, keys), None
+
+    def unlock_matrix(d, keys, pws):
+        # in the main thread: redirecting stdout / stderr is not thread-safe
         matrix = []
         for kf in keys:
             row = []
@@ -1047,10 +1051,11 @@ def cli_chain_probe(rep: Report, ctx):
                         raise
                     row.append(False)
             matrix.append(row)
-        return ops, log, pws, matrix, None
-    with ThreadPoolExecutor(max_workers=len(chains)) as ex:
+        return matrix
+    with ThreadPoolExecutor(max_workers=len(chains)) as ex:     # only the child processes run in parallel
         results = list(ex.map(one, range(len(chains))))
-    for ops, log, pws, matrix, failure in results:
+    for ops, log, pws, made, failure in results:
+        matrix = None if failure else unlock_matrix(made[0], made[1], pws)
         case = {'component': 'cli-chain', 'ops': [list(o) for o in ops], 'commands': log}
         rep.case(case, nontrivial=True)
         rep.count('cli-chain:chains')
